@@ -1388,10 +1388,35 @@ def opC15Race : List String → Res
   | [_n, _r] => { m := "complete", s := "complete", t := "two-writers" }
   | _ => bad
 
+/-- the translated regex package with Go's regexp as the external engine (compile verdict and per-line answers supplied) -/
+def opGenRegex : List String → Res
+  | [mode, inv, th, lhs, oracle] => match unhex th, oracle.splitOn ";" with
+    | some text, [okS, raw] =>
+      let lines := (lhs.splitOn ",").filterMap unhex
+      let table := lines.zip (raw.toList.map (· == '1'))
+      let ext : Go.Ext := { genExt with
+        reCompile := fun s => if okS = "1" then (⟨s, true⟩, none) else (⟨s, false⟩, some (str "error parsing regexp")),
+        reMatchRaw := fun _ l => ((table.find? (·.1 == l)).map (·.2)).getD false }
+      let bits (r : Gen.Regex.Regex) : String := String.ofList (lines.map fun l => if Gen.Regex.Regex.Match ext r l then '1' else '0')
+      if mode = "new" then
+        let (cl, e1) := Gen.Regex.New ext text (if inv = "1" then Gen.Regex.Invert else Gen.Regex.Default)
+        if e1.isSome then { m := "new-error" } else
+        let (ser, e2) := Gen.Regex.Regex.Serialize ext cl
+        if e2.isSome then { m := "serialize-error" } else
+        let (sv, e3) := Gen.Regex.Deserialize ext ser
+        if e3.isSome then { m := "deserialize-error" } else
+        { m := s!"{hexOf ser};{bits cl};{bits sv}", s := "-", t := "new" }
+      else
+        let (sv, e) := Gen.Regex.Deserialize ext text
+        if e.isSome then { m := "deserialize-error", t := "wire-error" } else { m := bits sv, s := "-", t := "wire" }
+    | _, _ => bad
+  | _ => bad
+
 def dispatch (line : String) : Res :=
   match (line.splitOn " ").filter (· ≠ "") with
   | "gen.stats" :: a => opGenStats a
   | "gen.agg" :: a => opGenAgg a
+  | "gen.regex" :: a => opGenRegex a
   | "c01.reader" :: a => opC01Reader a
   | "c01.pipe" :: a => opC01Pipe a
   | "c01.e2e" :: a => opC01E2E a
